@@ -249,8 +249,17 @@ pub mod watchdog {
 	fn slots() -> &'static Vec<Slot> {
 		SLOTS.get_or_init(|| (0..MAX).map(|_| Slot { since: AtomicU64::new(0), outer: AtomicU64::new(0), ctx: Mutex::new(String::new()) }).collect())
 	}
+	/// The watchdog's clock counts only time in which the machine was making progress: the watchdog thread advances it
+	/// on every tick by the time that passed, capped at twice the tick (a watchdog that itself was not scheduled for
+	/// seconds says the machine stalled, not the code under test), minus the time tasks spent stalled on memory
+	/// (/proc/pressure/memory) - another process exhausting the memory freezes every call for tens of seconds.
+	static CLOCK: AtomicU64 = AtomicU64::new(1);
 	fn now_ms() -> u64 {
-		T0.get_or_init(Instant::now).elapsed().as_millis() as u64 + 1
+		CLOCK.load(Ordering::Relaxed)
+	}
+	fn memory_stall_us() -> Option<u64> {
+		let s = std::fs::read_to_string("/proc/pressure/memory").ok()?;
+		s.lines().find(|l| l.starts_with("some"))?.split("total=").nth(1)?.trim().parse().ok()
 	}
 	pub fn enter() {
 		DEPTH.with(|d| {
@@ -288,9 +297,21 @@ pub mod watchdog {
 		if limit == 0 {
 			return;
 		}
-		now_ms();
-		std::thread::spawn(move || loop {
+		T0.get_or_init(Instant::now);
+		std::thread::spawn(move || {
+			let mut last = Instant::now();
+			let mut stall = memory_stall_us();
+		loop {
 			std::thread::sleep(Duration::from_millis(250));
+			let passed = last.elapsed().as_millis() as u64;
+			last = Instant::now();
+			let stall_now = memory_stall_us();
+			let stalled_ms = match (stall, stall_now) {
+				(Some(a), Some(b)) => b.saturating_sub(a) / 1000,
+				_ => 0,
+			};
+			stall = stall_now;
+			CLOCK.fetch_add(passed.min(500).saturating_sub(stalled_ms), Ordering::Relaxed);
 			let now = now_ms();
 			for s in slots() {
 				let t = s.since.load(Ordering::Relaxed);
@@ -303,6 +324,7 @@ pub mod watchdog {
 					std::process::exit(98);
 				}
 			}
+		}
 		});
 	}
 }
